@@ -64,3 +64,56 @@ fn builder_is_faithful() {
     std::mem::forget(cb);
     std::mem::forget(layer);
 }
+
+/// The same through the type-changing `failure_classifier` step: every setting made BEFORE
+/// the step survives it, every setting made AFTER it is applied, and the default minimum
+/// follows the FINAL window size in both orders.
+#[kani::proof]
+#[kani::unwind(4)]
+#[kani::stub(std::time::Instant::now, tokio::model::std_instant_now)]
+fn builder_classifier_step_is_faithful() {
+    use crate::verif_kani::svc::InnerErr;
+    let window: usize = kani::any();
+    let min_calls: usize = kani::any();
+    let permitted: usize = kani::any();
+    let fr: f64 = kani::any();
+    let sr: f64 = kani::any();
+    kani::assume(fr >= 0.0 && fr <= 1.0 && sr >= 0.0 && sr <= 1.0);
+    let wait = any_millis(1_000_000);
+    let slow = any_millis(1_000_000);
+    let set_min: bool = kani::any();
+    let classifier_first: bool = kani::any();
+    let f = |r: &Result<u32, InnerErr>| r.is_err();
+    macro_rules! settings {
+        ($b:expr) => {{
+            let mut b = $b
+                .failure_rate_threshold(fr)
+                .sliding_window_size(window)
+                .wait_duration_in_open(wait)
+                .permitted_calls_in_half_open(permitted)
+                .slow_call_duration_threshold(slow)
+                .slow_call_rate_threshold(sr);
+            if set_min {
+                b = b.minimum_number_of_calls(min_calls);
+            }
+            b
+        }};
+    }
+    let layer = if classifier_first {
+        settings!(CircuitBreakerLayer::builder().failure_classifier(f)).build()
+    } else {
+        settings!(CircuitBreakerLayer::builder()).failure_classifier(f).build()
+    };
+    let cb = layer.layer(Inner::new(svc::any_script()));
+    let c = &cb.config;
+    assert!(c.failure_rate_threshold == fr && c.slow_call_rate_threshold == sr, "[C04.config_thresholds] configured thresholds are used unchanged");
+    assert!(c.sliding_window_size == window && c.permitted_calls_in_half_open == permitted, "[C04.config_sizes] configured window size and permitted half-open calls are used unchanged");
+    assert!(c.wait_duration_in_open == wait && c.slow_call_duration_threshold == Some(slow), "[C04.config_durations] configured durations are used unchanged");
+    if set_min {
+        assert!(c.minimum_number_of_calls == min_calls, "[C04.config_minimum_calls] the configured minimum_number_of_calls is used unchanged (also above the window size)");
+    } else {
+        assert!(c.minimum_number_of_calls == window, "[C04.config_minimum_default] the default minimum_number_of_calls is the FINAL window size, whatever the order of the builder calls");
+    }
+    std::mem::forget(cb);
+    std::mem::forget(layer);
+}
